@@ -6,4 +6,10 @@ CLAIMED = {
  'C01': dict(technique='exhaustive enumeration of the operand product on the real encoders + text front end, oracle = independent reference decoder',
              text='Every (mnemonic, operand tuple) point of the stated product is executed on the real encoder / assembler and the emitted word is decoded by an independent reference decoder; decode(encode(t))==t on all t also shows injectivity. Thorough enumerates the complete product the property names (~2.6e8 points); quick a stated sub-product.',
              note=RV + '; quick tier is a stated sub-product, not the full product', ref='DESIGN.md section 3 C01'),
+ 'C02': dict(technique='exhaustive enumeration: all operand tuples in and around the legal sets (forward) and all 65536 halfwords (reverse), oracle = reference RVC decoder',
+             text='Forward: every c.* mnemonic x all 32 registers per position x every immediate from far below to far above the legal set runs on the real encoder and, when accepted, through the text front end; accepted => legal RV32C halfword decoding to exactly the named operands. Reverse: all 65536 halfwords; every legal one is reproduced from its canonical text and by the encoder. Image sets are compared per mnemonic (one-to-one). Complete in both tiers.',
+             note=RV, ref='DESIGN.md section 3 C02'),
+ 'C06': dict(technique='exhaustive enumeration of operand windows around every legal-set boundary on the real encoders and text front end, oracle = independent legality table + reference decoder',
+             text='For all 93 mnemonics every operand position sweeps a window reaching far beyond its legal set (all residues, wrap-around values, registers -3..40, all spellings and near-misses), alone on three base tuples and pairwise; accepted <=> legal and accepted => decodes to the operands named. Complete over the stated windows.',
+             note=RV + '; legality table mc/isa.py (manual + docs); CSR range = signed 12 bit as the reference gives none', ref='DESIGN.md section 3 C06'),
 }
